@@ -260,7 +260,12 @@ func (c *kvCore) enterExclusive(call string, own *int32) {
 }
 
 func (c *kvCore) enterShared(call string, own *int32) {
-	c.afterClose(call)
+	// (a Lookup of a concurrent / on-disk state machine may legitimately arrive after
+	// Close: the lock free lookup path has no closed test and the documentation only
+	// requires Close not to change what Lookup sees; C11 forbids it for the plain one)
+	if call != "Lookup" || c.kind == KindRegular {
+		c.afterClose(call)
+	}
 	if c.kind == KindRegular {
 		for _, o := range []struct {
 			n string
